@@ -11,7 +11,7 @@ under b, q holds p under b.reverse.  A second phase commits, reloads in a fresh 
 data through the public API and checks that the loaded parts agree with each other and with the model, continues the
 history on the loaded objects, commits again and reads everything back.
 """
-import itertools, json, random
+import itertools, json, os, random
 from pony.orm import Database, Required, Optional, Set, db_session, commit, rollback
 from pony.orm import core
 
@@ -801,6 +801,11 @@ def directed_phase(ctx, rng, n):
 def run(ctx):
     witnesses(ctx)
     rng = ctx.rng
+    corpus = os.path.join(os.path.dirname(os.path.dirname(os.path.abspath(__file__))), 'corpus', 'C12')
+    for f in sorted(os.listdir(corpus)) if os.path.isdir(corpus) else []:
+        if f.endswith('.json'):
+            c = json.load(open(os.path.join(corpus, f)))
+            check_fixed(ctx, c['schema'], c['ops'], 'corpus:' + f[:-5])
     directed_phase(ctx, rng, ctx.scale(60, 600))
     memory_phase(ctx, rng, ctx.scale(140, 2500), ctx.scale(14, 22))
 
